@@ -20,6 +20,7 @@ import (
 
 	"github.com/goccmack/gocc/internal/ast"
 	"github.com/goccmack/gocc/internal/parser/symbols"
+	"github.com/goccmack/gocc/internal/verifhook"
 )
 
 // FirstSets represents a map of id->production.
@@ -42,6 +43,7 @@ func GetFirstSets(g *ast.Grammar, symbols *symbols.Symbols) *FirstSets {
 	}
 
 	for again := true; again; {
+		verifhook.Step(verifhook.SiteFirstSets)
 		again = false
 		for _, prod := range g.SyntaxPart.ProdList {
 			switch {
